@@ -232,6 +232,7 @@ class LoopSpec:
         self.havoc = havoc              # fn(ctx) -> None : custom havoc (after the default one)
         self.modifies = modifies        # optional explicit list of names / 'self.attr'
         self.note = note
+        self.nonterminating = False     # service loops (sender/receiver): termination is not an obligation
 
 
 class LoopCtx:
@@ -1379,7 +1380,7 @@ class Engine:
             if v0 is not None:
                 v1 = spec.variant(ctx1)
                 self.prove('%s.variant_decreases' % tag, z3.And(I(v0) >= 0, I(v1) < I(v0)))
-            else:
+            elif not getattr(spec, 'nonterminating', False):
                 self.results.append(ObligationResult('%s.terminates' % tag, 'unknown', ';'.join(self.path.sig), 0.0,
                                                      reason='no variant given'))
             raise PathEnd('end of arbitrary iteration')
